@@ -43,5 +43,6 @@ SEEDED = [
     ("C20-9", "C20-WRAP"),
     ("C20-10", "C20-LEN"),
     ("C20-11", "C20-WRAP"),
+    ("C20-13", "C20-LEN"),
 ]
 MUTANTS = list(MUTANTS) + [_P("seed-" + sid, _os.path.join(_SEEDS, sid, "patch.diff"), rule) for sid, rule in SEEDED if _os.path.exists(_os.path.join(_SEEDS, sid, "patch.diff"))]
